@@ -75,6 +75,7 @@ static void eb_norm_hlv(eb_t r, const eb_t p) {
 	fb_add(r->y, p->x, p->y);
 	fb_mul(r->y, r->y, p->x);
 	fb_copy(r->x, p->x);
+	fb_set_dig(r->z, 1);
 	r->coord = BASIC;
 }
 
